@@ -8,6 +8,7 @@ CONSTANTS
   Wipeouts = FALSE
   Collide = TRUE
   Times = {1}
+  KeepGoing = {FALSE}
   Design = "atomic"
 SPECIFICATION Spec
 INVARIANTS EmitIssue
